@@ -93,6 +93,27 @@ def check_case(ctx, text, doc, cls):
         return
     ms = o.value
     ctx.case(h(text, orig), any(m.parts for m in ms))
+    if ctx.rng.random() < 0.3:
+        # the same matches through the async API over lazily loaded containers whose members arrive with uneven latencies:
+        # every match must still pair the location with the value found there
+        import asyncio
+        import random
+
+        from .c08 import Plan, unwrap, wrap
+
+        for shrinking in (False, True):
+            plan = Plan({}, random.Random(ctx.rng.random()), None)
+            plan.shrinking = shrinking
+
+            async def amatches():
+                return [(tuple(m.parts), canon(unwrap(m.obj)), str(m.pointer())) async for m in await jsonpath.finditer_async(text, wrap(doc, plan))]
+            am = impl.call(lambda: asyncio.run(amatches()))
+            ctx.count("async_lazy_container_routes")
+            want = [(tuple(m.parts), canon(m.obj), str(m.pointer())) for m in ms]
+            if not am.ok or am.value != want:
+                bad = next((x for x, y in zip(am.value, want) if x != y), None) if am.ok else None
+                ctx.violation("async-match-pairs-a-location-with-another-node's-value", case, {"text": text, "latencies": "shrinking" if shrinking else "random", "first_wrong_match": repr(bad)[:300] if am.ok else am.desc(), "sync": repr(want[:4])[:300]})
+                return
     sel = ms if len(ms) <= 25 else ms[:10] + ctx.rng.sample(ms[10:], 15)
     new = {"NEW": ["replacement", 424242]}
     for m in sel:
